@@ -295,10 +295,14 @@ Incompat(req, impl) ==
 (*   "func"  plain function found on an instance    fromFunction(attr)     *)
 (*   "bound" bound method found on an instance      fromMethod(attr)       *)
 (*   "class" function found on the class, vtype 'c' fromFunction(imlevel=1)*)
-Kinds == {"func", "bound", "class"}
-ImplSig(msig, kind) == ToSig(msig, kind # "func")
+(*   "cfunc" plain function found on a NON-class candidate of verifyClass  *)
+(*           (a factory declared with implementer(): nothing receives      *)
+(*           self there)                            fromFunction(attr)     *)
+Kinds == {"func", "bound", "class", "cfunc"}
+Unbound(kind) == kind \in {"func", "cfunc"}
+ImplSig(msig, kind) == ToSig(msig, ~Unbound(kind))
 ImplInfo(msig, kind) ==
-    Describe(ImplSig(msig, kind), 0, IF kind = "func" THEN "function"
+    Describe(ImplSig(msig, kind), 0, IF Unbound(kind) THEN "function"
                                      ELSE "method")
 IfaceInfo(isig) == Describe(ToSig(isig, FALSE), 0, "function")
 
